@@ -382,3 +382,100 @@ pub fn kill_window(a: &Args) {
     });
     println!("log={}", log.lock().unwrap().join(","));
 }
+
+/// C08 thread-local hand-over: a thread-local spawn whose future is dropped while its request is still queued behind a busy spawner thread: once the spawner
+/// has worked through its queue, the abandoned actor's pre_start must not have run and its name must be free.
+pub fn tl_queued_cancel(_a: &Args) {
+    use ractor::thread_local::{ThreadLocalActor, ThreadLocalActorSpawner};
+    use std::sync::mpsc;
+    #[derive(Default)]
+    struct Blocker;
+    impl ThreadLocalActor for Blocker {
+        type Msg = ();
+        type State = ();
+        type Arguments = mpsc::Receiver<()>;
+        async fn pre_start(&self, _: ActorRef<()>, gate: mpsc::Receiver<()>) -> Result<(), ActorProcessingErr> {
+            // blocks the spawner thread (not just the task): every later request stays queued
+            let _ = gate.recv_timeout(std::time::Duration::from_secs(5));
+            Ok(())
+        }
+    }
+    #[derive(Default)]
+    struct Victim;
+    impl ThreadLocalActor for Victim {
+        type Msg = ();
+        type State = ();
+        type Arguments = Log;
+        async fn pre_start(&self, _: ActorRef<()>, log: Log) -> Result<(), ActorProcessingErr> {
+            log.lock().unwrap().push("victim_pre_start".to_string());
+            Ok(())
+        }
+    }
+    #[derive(Default)]
+    struct Fence;
+    impl ThreadLocalActor for Fence {
+        type Msg = ();
+        type State = ();
+        type Arguments = ();
+        async fn pre_start(&self, _: ActorRef<()>, _: ()) -> Result<(), ActorProcessingErr> {
+            Ok(())
+        }
+    }
+    let rt = tokio::runtime::Builder::new_multi_thread().worker_threads(2).enable_all().build().unwrap();
+    let log: Log = Default::default();
+    let name = format!("c08-victim-{}", std::process::id());
+    rt.block_on(async {
+        let spawner = ThreadLocalActorSpawner::new();
+        let (open, gate) = mpsc::channel::<()>();
+        let blocker = {
+            let sp = spawner.clone();
+            tokio::spawn(async move { Blocker::spawn(None, gate, sp).await })
+        };
+        tokio::time::sleep(std::time::Duration::from_millis(50)).await;
+        // queued behind the blocked spawner; abandoned after 50 ms
+        let abandoned = tokio::time::timeout(std::time::Duration::from_millis(50), Victim::spawn(Some(name.clone()), log.clone(), spawner.clone())).await;
+        println!("spawn_abandoned={}", abandoned.is_err() as u8);
+        open.send(()).unwrap();
+        let b = blocker.await.unwrap();
+        println!("blocker_started={}", b.is_ok() as u8);
+        // the queue is FIFO: once the fence has started, the victim's request has been dealt with
+        let f = Fence::spawn(None, (), spawner.clone()).await;
+        println!("fence_started={}", f.is_ok() as u8);
+        tokio::time::sleep(std::time::Duration::from_millis(100)).await;
+        println!("victim_pre_start_ran={}", log.lock().unwrap().iter().any(|l| l == "victim_pre_start") as u8);
+        println!("name_registered={}", ractor::registry::where_is(name.clone()).is_some() as u8);
+        let again = tokio::time::timeout(std::time::Duration::from_secs(2), Victim::spawn(Some(name.clone()), log.clone(), spawner.clone())).await;
+        println!("name_reusable={}", matches!(again, Ok(Ok(_))) as u8);
+        // second cut: the spawn is abandoned while its start task is already running on the spawner thread (pre_start suspended)
+        #[derive(Default)]
+        struct SlowStart;
+        impl ThreadLocalActor for SlowStart {
+            type Msg = ();
+            type State = ();
+            type Arguments = Log;
+            async fn pre_start(&self, _: ActorRef<()>, log: Log) -> Result<(), ActorProcessingErr> {
+                log.lock().unwrap().push("slow_begin".to_string());
+                tokio::time::sleep(std::time::Duration::from_millis(200)).await;
+                log.lock().unwrap().push("slow_end".to_string());
+                Ok(())
+            }
+        }
+        let name2 = format!("{}-running", name);
+        let abandoned2 = tokio::time::timeout(std::time::Duration::from_millis(60), SlowStart::spawn(Some(name2.clone()), log.clone(), spawner.clone())).await;
+        println!("running_spawn_abandoned={}", abandoned2.is_err() as u8);
+        tokio::time::sleep(std::time::Duration::from_millis(400)).await;
+        println!("running_pre_start_began={}", log.lock().unwrap().iter().any(|l| l == "slow_begin") as u8);
+        println!("running_pre_start_finished={}", log.lock().unwrap().iter().any(|l| l == "slow_end") as u8);
+        println!("running_name_registered={}", ractor::registry::where_is(name2.clone()).is_some() as u8);
+        if let Ok((a, _)) = b {
+            a.stop(None);
+        }
+        if let Ok((a, _)) = f {
+            a.stop(None);
+        }
+        if let Ok(Ok((a, _))) = again {
+            a.stop(None);
+        }
+        tokio::time::sleep(std::time::Duration::from_millis(50)).await;
+    });
+}
